@@ -119,7 +119,12 @@ def _plugin_class(name, ver, gname=""):
     key = "p_" + gname + "_" + name.replace(".", "_DOT_").replace("-", "_DASH_") + "_%d_%d_%d" % ver
     if not hasattr(_mod, key):
         info = type("Plugin", (), dict(name=name, version=ver))
-        setattr(_mod, key, _PM(key, (object,), {"Plugin": info}))
+        ns = {"Plugin": info}
+        if ver[2] == 1:  # plugin classes may have attributes of their own that happen to be called like reference fields
+            ns.update(group="charts", name="My fancy plugin", version="2023-01")
+        elif ver[1] == 2:
+            ns.update(group="charts")
+        setattr(_mod, key, _PM(key, (object,), ns))
     return key, getattr(_mod, key)
 
 
@@ -288,6 +293,15 @@ def check_loading(seq, how):
                     _PM("Sub", bases, {})
                 except TypeError as e:
                     raise Violation("C16:versioned-class-not-subclassable", f"{form}: {e}", "subclassing allowed")
+            # the class itself as key: its Plugin section states name and version
+            try:
+                byc = (g.get(c), c in g, g[c])
+            except Exception as e:  # noqa: BLE001
+                byc = f"{type(e).__name__}: {str(e)[:120]}"
+            if not isinstance(byc, tuple) or byc[0] is not c or byc[1] is not True or byc[2] is not c:
+                own = {k: c.__dict__[k] for k in ("group", "name", "version") if k in c.__dict__}
+                raise Violation("C16:get-by-class" + (":class-has-own-attributes" if own else ""),
+                                f"class {n} {best} with own attributes {own}: (get(cls), cls in g, g[cls]) -> {byc!r}", "(cls, True, cls)")
         c = g.get(n)
         if c is None or tuple(c.Plugin.version) != vs[-1]:
             raise Violation("C16:get-unversioned", f"get({n!r}) -> {c!r}", f"class of newest version {vs[-1]}")
@@ -480,6 +494,63 @@ def run_shard(shard, tier, seed, rec):
                     rec.fail("C16:group-installed:foreign-group-reference-resolved", dict(kind="installed-foreign", group=grp.name),
                              f"plugingroups.get({foreign!r}) -> {type(hit).__name__}, in -> {foreign in plugingroups}", "None / False")
             rec.case(nt_key=("foreign-installed", grp.name), classes=["foreign_reference_installed_groups"], sample=None)
+        # every request that the registered version of a plugin group supports hands out the same group object
+        for gref in list(plugingroups.keys()):
+            gv = tuple(gref.version)
+            exact = plugingroups.get(gref.name, gv)
+            for req in (gv, (gv[0], 0, 0), (gv[0], gv[1], gv[2] + 7), list(gv)):
+                forms = [("name+version", lambda: plugingroups.get(gref.name, req)),
+                         ("tuple-key", lambda: plugingroups.get((gref.name, tuple(req)))),
+                         ("ref", lambda: plugingroups.get(PluginRef(group=gref.group, name=gref.name, version=tuple(req))))]
+                for form, fn in forms:
+                    try:
+                        got = fn()
+                    except Exception as e:  # noqa: BLE001
+                        got = f"{type(e).__name__}: {e}"
+                    if got is not exact:
+                        rec.fail("C16:group-installed:compatible-request-yields-other-object", dict(kind="installed-groups", group=gref.name, request=list(req)),
+                                 f"plugingroups.get({gref.name!r}, {req}) [{form}] -> {got!r}", f"the same object as for {gv}: {exact!r}")
+            if plugingroups.get(gref.name, (gv[0] + 1, 0, 0)) is not None:
+                rec.fail("C16:group-installed:unsupported-request-resolved", dict(kind="installed-groups", group=gref.name), "not None", "None")
+            rec.case(nt_key=("group-compatible", gref.name), classes=["installed_group_compatible_request"], sample=None)
+        # references to other plugins (requires / returns) are requests too: the newest registered version that supports them
+        from metador_core.plugin.util import register_in_group
+        from metador_core.schema import MetadataSchema
+
+        base_versions = sorted(tuple(r.version) for r in schemas.keys() if r.name == "verif.base")
+        if len(base_versions) >= 2:
+            for i, req in enumerate([(1, 0, 5), (1, 0, 0), (1, 1, 0)]):
+                info = type("Plugin", (), dict(name=f"vt.depuser{i}", version=(0, 1, 0), requires=[schemas.PluginRef(name="verif.base", version=req)]))
+                cls = type(MetadataSchema)(f"DepUser{i}", (MetadataSchema,), {"Plugin": info, "__module__": __name__, "__annotations__": {}})
+                try:
+                    register_in_group(schemas, cls, violently=True)
+                    got = schemas.get(f"vt.depuser{i}", (0, 1, 0))
+                    err = None if got is not None else "get -> None"
+                except Exception as e:  # noqa: BLE001
+                    err = f"{type(e).__name__}: {e}"
+                if err:
+                    rec.fail("C16:group-installed:compatible-dependency-not-resolved", dict(kind="installed-dep", request=list(req)),
+                             f"schema requiring verif.base {req} (registered: {base_versions}): {err}", "loads (the newest version supporting the request is registered)")
+                rec.case(nt_key=("dep", req), classes=["dependency_request_resolved"], sample=dict(kind="installed-dep", request=list(req)))
+            # a harvester names the schema it returns with a version: that request resolves within its major version
+            from metador_core.harvester import Harvester
+
+            for i, req in enumerate([(1, 0, 0), (1, 1, 0), (2, 0, 0)]):
+                want = max(v for v in base_versions if v[0] == req[0] and v[1] >= req[1])
+                info = type("Plugin", (), dict(name=f"vt.hv{i}", version=(0, 1, 0), returns=schemas.PluginRef(name="verif.base", version=req)))
+                hv = type(Harvester)(f"Hv{i}", (Harvester,), {"Plugin": info, "__module__": __name__, "run": lambda self: self.schema()})
+                try:
+                    register_in_group(harvesters, hv, violently=True)
+                    got = harvesters.get(f"vt.hv{i}", (0, 1, 0))
+                    part = got().schema
+                    base = schemas.get("verif.base", want).Partial
+                    err = None if part is base else f"harvester.schema is {part!r}"
+                except Exception as e:  # noqa: BLE001
+                    err = f"{type(e).__name__}: {str(e)[:200]}"
+                if err:
+                    rec.fail("C16:group-installed:harvester-schema-request-not-resolved", dict(kind="installed-hv", request=list(req)),
+                             f"harvester returning verif.base {req} (registered: {base_versions}): {err}", f"partial of verif.base {want}")
+                rec.case(nt_key=("hv", req), classes=["harvester_schema_request_resolved"], sample=dict(kind="installed-hv", request=list(req)))
         for grp in (schemas, harvesters, packers, widgets):
             for ref in list(grp.keys()):
                 v = tuple(ref.version)
